@@ -4,6 +4,7 @@
 
 mod engine;
 mod wire;
+mod gen;
 mod props;
 
 use engine::{Ctx, Tier};
